@@ -229,6 +229,20 @@ func afterCloseScenario(emit func(sx), id int, cs uint64) {
 		res = append(res, errSx(err))
 		_, err = c.NewBatch(0, 0)
 		res = append(res, errSx(err))
+		// merger notifications after Close must return too (nobody receives or answers them any
+		// more): one synchronous one, then more asynchronous ones than the ping queue holds
+		if nm, ok := c.(interface {
+			NotifyMerger(string, bool) error
+		}); ok {
+			if !within(10*time.Second, func() {
+				nm.NotifyMerger("after-close", true)
+				for j := 0; j < 24; j++ {
+					nm.NotifyMerger("after-close", false)
+				}
+			}) {
+				emit(L("stall", fmt.Sprintf("%q", fmt.Sprintf("NotifyMerger after Close never returned (readonly=%v)", ro))))
+			}
+		}
 	}
 	emit(res)
 	emit(L("end"))
